@@ -70,7 +70,11 @@ def handle : DrvHandler := fun op args =>
       -- an invoked handler without a recorded outcome is a protocol error, reported as such
       let missing : Outcome := { final := false, delay := some (-1), error := true, subrefs := ["<no-outcome>"] }
       let exec : Id → Nat → Outcome := fun i _ => (lookupD oL i).getD missing
-      let c := cycle cfg P now now1 exec
+      -- the selected handlers that have a reason of their own (`handler.reason is not None`); absent = none of them
+      let boundL ← match j.getObjVal? "bound" with
+        | .ok v => jStrList? v
+        | .error _ => some []
+      let c := cycleB cfg (fun i => boundL.contains i) P now now1 exec
       some (ok (Json.mkObj [
         ("invoked", .arr (c.invoked.map (fun (i, n) => Json.arr #[.str i, .num (JsonNumber.fromNat n)])).toArray),
         ("P", Json.mkObj (univ.map (fun i => (i, match c.P' i with | some r => recJson r | none => .null)))),
@@ -124,7 +128,10 @@ def handle : DrvHandler := fun op args =>
       let P : Store := lookupD pL
       let missing : Outcome := { final := false, delay := some (-1), error := true, subrefs := ["<no-outcome>"] }
       let exec : Id → Nat → Outcome := fun i _ => (lookupD oL i).getD missing
-      let c := cycle2 cfg sub P now exec
+      let boundL ← match j.getObjVal? "bound" with
+        | .ok v => jStrList? v
+        | .error _ => some []
+      let c := cycle2B cfg (fun i => boundL.contains i) sub P now exec
       some (ok (Json.mkObj [
         ("invoked", .arr (c.invoked.map (fun (i, n) => Json.arr #[.str i, .num (JsonNumber.fromNat n)])).toArray),
         ("subInvoked", .arr (c.subInvoked.map (fun (i, n) => Json.arr #[.str i, .num (JsonNumber.fromNat n)])).toArray),
